@@ -31,6 +31,8 @@ pub struct T {
     pub yielded: bool,
     /// coroutine whose kernel half (subscribe) this thread is executing, 0 = none
     pub kernel_of: u64,
+    /// consecutive schedule points this thread passed without anybody else running
+    pub streak: u32,
 }
 
 #[derive(Clone, Debug)]
@@ -142,7 +144,10 @@ impl State {
                         *cand.iter().max_by_key(|&&i| self.threads[i].prio).unwrap()
                     }
                 };
-                // a chosen thread other than a yielded one clears yield marks of others lazily
+                // a yield gives way for one scheduling decision only
+                for t in self.threads.iter_mut() {
+                    t.yielded = false;
+                }
                 return Some(choice);
             }
             // nobody ready: advance time to the earliest deadline
@@ -212,6 +217,7 @@ impl Ctl {
         match g.pick(me) {
             Some(nxt) => {
                 if nxt != me {
+                    g.threads[nxt].streak = 0;
                     g.switches += 1;
                     g.cur = nxt;
                     self.cv.notify_all();
@@ -335,6 +341,12 @@ impl Hooks for Ctl {
             g.threads[me].last_loc = l;
             g.threads[me].same_loc = 0;
         }
+        // bounded unfairness: a thread that keeps the baton for too long (polling loop) gives way once
+        g.threads[me].streak += 1;
+        if g.threads[me].streak >= 48 {
+            g.threads[me].yielded = true;
+            g.threads[me].streak = 0;
+        }
         drop(self.switch(g, me));
     }
 
@@ -443,6 +455,7 @@ impl Hooks for Ctl {
                 same_loc: 0,
                 yielded: false,
                 kernel_of: 0,
+                streak: 0,
             });
             n
         };
@@ -582,6 +595,11 @@ impl Ctx {
     pub fn now(&self) -> u64 {
         self.ctl.now_ns()
     }
+    /// switch trace recording on/off (e.g. off before tear-down code that no model follows)
+    pub fn record(&self, on: bool) {
+        let mut g = self.ctl.m.lock().unwrap();
+        g.record = on && std::env::var("MAYV_TRACE").is_ok();
+    }
     pub fn fail(&self, what: String) {
         self.ctl.m.lock().unwrap().oracle_fail.push(what);
     }
@@ -592,6 +610,11 @@ impl Ctx {
     /// a schedule point that scenario code can place between API calls
     pub fn point(&self) {
         self.ctl.yield_point();
+    }
+    /// the caller polls: prefer somebody else at this point
+    pub fn yield_now(&self) {
+        let h: &dyn Hooks = self.ctl;
+        h.yield_now()
     }
     pub fn rand(&self) -> u64 {
         self.ctl.m.lock().unwrap().next_rand()
@@ -644,6 +667,7 @@ pub fn run(cfg: Config, body: impl FnOnce(&Ctx)) -> ! {
             same_loc: 0,
             yielded: false,
             kernel_of: 0,
+                streak: 0,
         }],
         now: 0,
         rng: cfg.seed.wrapping_mul(0x9E3779B97F4A7C15) | 1,
